@@ -1,14 +1,15 @@
 """C15 — corrupted block references never crash loading, querying or saving.
 
-Proof (coq/Properties/Properties_C15.v over coq/Robust/RobustModel.v): the guarded lookup, the
-visited-set traversals (GetTree, SetSortIndices, PrettySortBlocks, DeleteUnreferencedBlocks) terminate
-and never index out of range for EVERY graph; SortCollision and the parent walk of
-GetNodeTransformToGlobal, which have no such guard, are refuted (they diverge exactly on a cycle of
-"before-parent" calls / of node parents) and proved total without such a cycle.
+Proof (coq/Properties/Properties_C15.v over coq/Robust/RobustModel.v): the guarded lookup and every
+traversal (GetTree, SetSortIndices / SortCollision / PrettySortBlocks, DeleteUnreferencedBlocks, the
+parent walk of GetNodeTransformToGlobal) terminate within an explicit linear fuel and never index out of
+range for EVERY graph. (SortCollision and the parent walk diverged on cycles until they were repaired;
+the input classes of those defects are still recognised, and a crash inside them is reported as the
+repaired defect coming back.)
 Search (harness/o_corrupt.cpp, ASan/UBSan, watchdog): every block-reference field of the raw-saved
 samples (found with the reference hook) x corruption kinds, 1..3 at a time -> load, query battery,
 copy, save raw/default, reload. Tie: the extracted model runs on the graph dumped after loading each
-corrupted file and predicts every digest of the battery and "sorter terminates / diverges"."""
+corrupted file and predicts every digest of the battery, including the exact order PrettySortBlocks produces."""
 import concurrent.futures as cf
 import json
 import os
@@ -33,12 +34,9 @@ SYNTH_BASES = [
     "N:x|1+T:2|x.x.x+C:3+B:x|",                                    # shape with a collision object
 ]
 
-KNOWN_UB = [
-    # aborting undefined behaviour unrelated to references: (finding id, skip flag, all of these substrings in stderr)
-    ("C15-ub-misaligned-skinweight-ref", "bw", ["runtime error: reference binding to misaligned address", "GetShapeBoneWeights"]),
-    # a genuine reference-corruption defect with a narrow, recognisable class: that one query is skipped and the rest re-run
-    ("C15-bonebounds-unchecked-index", "bb", ["AddressSanitizer: heap-buffer-overflow", "NifFile::GetShapeBoneBounds"]),
-]
+# aborting undefined behaviour unrelated to references that is recorded with status "known":
+# (finding id, skip flag of the battery, all of these substrings in stderr) -- none at present
+KNOWN_UB = []
 # recoverable UBSan reports (the asan flavour continues after invalid bool/enum loads): finding id, substrings
 KNOWN_WARN = [
     ("C15-ub-invalid-bool-copy", ["is not a valid value for type 'bool'", "NiBlendBoolInterpolator"]),
@@ -301,11 +299,9 @@ def known_match(k, ctx):
     m = k.get("match", {})
     if "op" in m and ctx.get("op") not in m["op"]:
         return False
-    if "model_sort_verdict" in m and ctx.get("sortv", "")[:1] != m["model_sort_verdict"]:
+    if m.get("graph_has_before_parent_cycle") and ctx.get("cyc", "-") in ("-", ""):
         return False
-    if m.get("certificate") == "closed-set-of-before-parent-calls" and "cycle:" not in ctx.get("sortv", ""):
-        return False
-    if m.get("model_parent_walk_diverges") and not ctx.get("ntg_diverges"):
+    if m.get("graph_has_node_parent_cycle") and not ctx.get("pcyc"):
         return False
     if m.get("watchdog") and "WATCHDOG" not in ctx.get("stderr", ""):
         return False
@@ -342,15 +338,8 @@ def run(tier, seed, replay=None):
     env = {"VERIF_SAMPLES": samples_dir, "VERIF_CASE_TIMEOUT": "20",
            "ASAN_OPTIONS": "detect_leaks=0:abort_on_error=0:allocator_may_return_null=1:detect_stack_use_after_return=0"}
     known = {k["id"]: k for k in rep.known}
+    all_entries = [k for k in vlib.load_known() if k.get("property") == PID]
     timings = {}
-
-    def known_or_violation(ctx, what, replay_dict):
-        for k in rep.known:
-            if known_match(k, ctx):
-                rep.known_finding(k["id"], ctx.get("case", ""))
-                return k["id"]
-        rep.violation(what, replay_dict)
-        return None
 
     # ---------------------------------------------------------------- scan + baseline
     t0 = time.time()
@@ -402,7 +391,10 @@ def run(tier, seed, replay=None):
             if o[0] == "known":
                 rep.known_finding(o[1], o[2])
             else:
-                rep.violation("the battery fails on the UNCORRUPTED sample (sanitizer/abort/timeout) [%s]" % crash_site(o[2]),
+                ctx = {"op": "battery", "stderr": (o[2] or {}).get("stderr", ""), "case": o[1]}
+                back = [k["id"] for k in all_entries if k.get("status") == "fixed" and known_match(k, ctx)]
+                rep.violation(("the repaired defect %s is back: " % back[0] if back else "") +
+                              "the battery fails on the UNCORRUPTED sample (sanitizer/abort/timeout) [%s]" % crash_site(o[2]),
                               {"case": o[1], "family": "corrupt", "crash": o[2]})
         if not ok:
             del scans[f]
@@ -467,9 +459,9 @@ def run(tier, seed, replay=None):
     t0 = time.time()
     for s in ready:
         m = s["model"]
-        s["sort_diverges"] = m.get("sortv", "").startswith("D")
-        s["ntg"] = [x for x in m.get("ntgd", "").split(",") if x]
-        s["battery_case"] = battery_line(s, s["flags"], s["sort_diverges"], s["ntg"])
+        s["cyc"] = m.get("cyc", "-")          # a cycle of before-parent calls of SortCollision (checked by rg_closed_ok)
+        s["pcyc"] = m.get("pcyc", "")         # first-node ids whose parent chain runs into a cycle (rb_pclosed_ok)
+        s["battery_case"] = battery_line(s, s["flags"])
     # a first slice decides whether the tree is badly broken: then the rest would only multiply watchdog time
     order = list(range(len(ready)))
     random.Random(seed + 2).shuffle(order)
@@ -504,62 +496,37 @@ def run(tier, seed, replay=None):
             for kid, flag, pats in KNOWN_UB:
                 if all(p in err for p in pats) and flag not in s["flags"]:
                     hit = (kid, flag)
-            ctx = {"op": "battery", "stderr": err, "case": c, "sortv": s["model"].get("sortv", ""), "graph": s.get("graph", "")}
+            ctx = {"op": "battery", "stderr": err, "case": c, "cyc": s["cyc"], "pcyc": s["pcyc"], "graph": s.get("graph", "")}
             if not (hit and hit[0] in known and known_match(known[hit[0]], ctx)):
                 break
             rep.known_finding(hit[0], c)
             s["flags"].append(hit[1])
-            c = battery_line(s, s["flags"], s["sort_diverges"], s["ntg"])
+            c = battery_line(s, s["flags"])
             (_, line, crash), = run_each(impl_bin, IMPL, [c], env, timeout=240)
             if crash is None:
                 break
         if crash is None and line:
             check_line(s, c, line, mism, specfails, nontriv)
             continue
+        ctx = {"op": "battery", "stderr": (crash or {}).get("stderr", ""), "case": c, "cyc": s["cyc"], "pcyc": s["pcyc"], "graph": s.get("graph", "")}
+        back = [k["id"] for k in all_entries if k.get("status") == "fixed" and known_match(k, ctx)]
         what = "hang (watchdog)" if "WATCHDOG" in (crash or {}).get("stderr", "") else "crash (sanitizer/abort)"
-        rep.violation("%s in load/query/copy/save of a file with a corrupted block reference [%s]" % (what, crash_site(crash)),
-                      {"case": c, "family": "corrupt", "crash": crash, "model": s["model"]})
+        if back:
+            rep.violation("the repaired defect %s is back: %s [%s]" % (back[0], what, crash_site(crash)),
+                          {"case": c, "family": "corrupt", "crash": crash, "model": s["model"]})
+        else:
+            rep.violation("%s in load/query/copy/save of a file with a corrupted block reference [%s]" % (what, crash_site(crash)),
+                          {"case": c, "family": "corrupt", "crash": crash, "model": s["model"]})
     timings["battery_s"] = round(time.time() - t0, 1)
 
-    # ---------------------------------------------------------------- the two refuted traversals on the real code
-    t0 = time.time()
-    div_sort = [s for s in ready if s["sort_diverges"]]
-    div_ntg = [(s, f) for s in ready for f in s["ntg"]]
-    if tier == "quick" and not replay:
-        rng2 = random.Random(seed + 1)
-        conf_sort = div_sort if len(div_sort) <= 48 else rng2.sample(div_sort, 48)
-        conf_ntg = div_ntg if len(div_ntg) <= 16 else rng2.sample(div_ntg, 16)
-    else:
-        rng2 = random.Random(seed + 1)
-        conf_sort = div_sort
-        conf_ntg = div_ntg if (replay or len(div_ntg) <= 480) else rng2.sample(div_ntg, 480)
+    # ---------------------------------------------------------------- the input classes of the repaired defects
+    cyc_cases = [s for s in ready if s["cyc"] not in ("-", "")]
+    pcyc_cases = [s for s in ready if s["pcyc"]]
     cycle_types = {}
-    for s in div_sort:
-        m = re.search(r"cycle:([\d.]+)", s["model"].get("sortv", ""))
+    for s in cyc_cases:
         tys = [b.split(";")[0][3:] for b in s["graph"].split(" g=", 1)[1].split("+")]
-        if m:
-            key = ">".join(tys[int(i)] for i in m.group(1).split(".") if int(i) < len(tys))
-            cycle_types[key] = cycle_types.get(key, 0) + 1
-    sres = run_each(impl_bin, IMPL, [mk("sort", s) for s in conf_sort], env, timeout=120)
-    confirmed_sort = confirmed_ntg = 0
-    for s, (c, line, crash) in zip(conf_sort, sres):
-        ctx = {"op": "sort", "stderr": (crash or {}).get("stderr", ""), "case": c, "sortv": s["model"].get("sortv", "")}
-        if crash is None:
-            mism.append({"case": c, "what": "model: SortCollision diverges (%s); implementation: PrettySortBlocks returned" % s["model"].get("sortv"), "impl": line})
-            continue
-        if known_or_violation(ctx, "PrettySortBlocks crashed on a corrupted reference [%s]" % crash_site(crash),
-                              {"case": c, "family": "corrupt", "crash": crash, "model": s["model"]}):
-            confirmed_sort += 1
-    nres = run_each(impl_bin, IMPL, [mk("ntg", s, " node=%s" % f) for (s, f) in conf_ntg], env, timeout=60)
-    for (s, f), (c, line, crash) in zip(conf_ntg, nres):
-        ctx = {"op": "ntg", "stderr": (crash or {}).get("stderr", ""), "case": c, "ntg_diverges": True}
-        if crash is None:
-            mism.append({"case": c, "what": "model: the parent walk from node %s never ends; implementation: GetNodeTransformToGlobal returned" % f, "impl": line})
-            continue
-        if known_or_violation(ctx, "GetNodeTransformToGlobal failed on a corrupted reference [%s]" % crash_site(crash),
-                              {"case": c, "family": "corrupt", "crash": crash, "model": s["model"]}):
-            confirmed_ntg += 1
-    timings["confirm_s"] = round(time.time() - t0, 1)
+        key = ">".join(tys[int(i)] for i in s["cyc"].split(".") if int(i) < len(tys))
+        cycle_types[key] = cycle_types.get(key, 0) + 1
 
     for f in specfails[:10]:
         rep.violation("save/copy/reload of a file with a corrupted block reference failed: " + f["what"], dict(f, family="corrupt"))
@@ -588,10 +555,9 @@ def run(tier, seed, replay=None):
         "traces_validated_against_impl": len(ready),
         "correspondence_mismatches": len(mism),
         "spec_failures_on_impl": len(specfails),
-        "sorter_divergence_predicted": len(div_sort), "sorter_divergence_confirmed_stack_overflow": confirmed_sort,
-        "sorter_divergence_confirmations_run": len(conf_sort), "sorter_divergence_cycles_by_block_types": cycle_types,
-        "parent_walk_divergence_predicted": len(div_ntg), "parent_walk_divergence_confirmed_hang": confirmed_ntg,
-        "parent_walk_confirmations_run": len(conf_ntg),
+        "cases_with_a_cycle_of_before_parent_calls_all_sorted_and_saved": len(cyc_cases),
+        "before_parent_cycles_by_block_types": cycle_types,
+        "cases_with_a_node_parent_cycle_all_queried": len(pcyc_cases),
         "timings": timings,
         "battery_cases_not_run_after_a_crashing_first_slice": skipped_after_slice,
         "recoverable_ubsan_reports": warn_sigs,
@@ -599,7 +565,6 @@ def run(tier, seed, replay=None):
         "trusted_base": vlib.BASE_TRUSTED + [
             "memory safety / absence of undefined behaviour is OBSERVED (ASan+UBSan, watchdog) on the enumerated corruptions only; no Coq model exhibits it",
             "modelled, not verified: std::set<uint32_t> visitedIndices as one flag per block id, std::vector as lists with faulting access, dynamic_cast as dumped kind flags",
-            "the verdict 'sorter diverges' of the model oracle is: the extracted model exhausts fuel (n+1)^2+1 AND the extracted checker accepts a closed set of before-parent calls (theorem C15_sort_collision_diverges needs that set unvisited at the call; that part is observed by the run, not proved per case)",
         ],
         "exhaustive": False,
     })
@@ -608,20 +573,17 @@ def run(tier, seed, replay=None):
     return rep.finish(cov, level_note)
 
 
-UNPROVED = [
-    "converse of the fuel bound: 'the model exhausts fuel (n+1)^2+1 => it exhausts every fuel' (a bound on the recursion depth of every TERMINATING run) is not proved; the per-case verdict 'diverges' therefore also requires the closed-set certificate (C15_sort_collision_diverges_graph) and is confirmed on the implementation",
-    "existence of a rank for every graph without a cycle of before-parent calls (acyclic => ranked) is not proved in Coq; the rank is found by the untrusted driver and CHECKED by the extracted rg_rank_ok (sound by C15_pretty_sort_total_graph)",
-]
+UNPROVED = []
 
 
 def flag_str(flags):
     return ""
 
 
-def battery_line(spec, flags, sort_diverges=False, ntg=()):
-    sk = list(flags) + (["sort"] if sort_diverges else [])
-    return "%s %s kind=%s%s%s%s" % (op_name(spec, "battery"), spec_str(spec), spec.get("kind", "replay"), flag_str(flags),
-                                    (" skip=" + ",".join(sk)) if sk else "", (" skipntg=" + ",".join(ntg)) if ntg else "")
+def battery_line(spec, flags):
+    sk = list(flags)
+    return "%s %s kind=%s%s%s" % (op_name(spec, "battery"), spec_str(spec), spec.get("kind", "replay"), flag_str(flags),
+                                  (" skip=" + ",".join(sk)) if sk else "")
 
 
 def crash_site(crash):
@@ -640,14 +602,10 @@ def check_line(s, c, line, mism, specfails, nontriv):
     I = kv(line[2:])
     I["n"] = I.get("n", "")
     M = s["model"]
-    skipped_ntg = " skip=" in c and "ntg" in kv(c).get("skip", "").split(",")
     for k in COMPARED:
-        if k == "so" and (s["sort_diverges"] or "so" not in I):
+        if k == "so" and "so" not in I:
             continue
         iv, mv = I.get(k), M.get(k)
-        if k == "nd" and skipped_ntg and iv and mv:
-            iv = ",".join(x for j, x in enumerate(iv.split(",")) if j != 1)
-            mv = ",".join(x for j, x in enumerate(mv.split(",")) if j != 1)
         if iv != mv:
             mism.append({"case": c, "what": "digest %s: implementation %s, model %s" % (k, iv, mv), "impl": line[:400], "model": M})
             break
